@@ -229,3 +229,17 @@ mutant("c13-nested-object-gets-fresh-name-set",
 mutant("c13-pair-arm-forgets-to-remove-key",
        [(B, "                    .context(BindObjectPairFailed)?;\n\n                remaining_keys.remove(&prop_name);", "                    .context(BindObjectPairFailed)?;")],
        [("C13", "R13.3")], note="{\"k\": b, ..rest} := o keeps k in rest")
+
+# ---- C03 / C15 -----------------------------------------------------------------
+mutant("c03-statementwise-parse-and-run",
+       [(MAIN, "    eval::eval_prog(\n        &EvaluationContext{\n            builtins: &Builtins{\n                std: Arc::new(Mutex::new(BTreeMap::new())),\n                type_functions: type_functions::type_functions(),\n            },\n            cur_script_dir,\n        },\n        &mut scopes,\n        global_bindings.clone(),\n        &ast,\n    )\n        .context(EvalFailed{path: cur_rel_script_path})?;",
+               "    let ectx = EvaluationContext{\n        builtins: &Builtins{\n            std: Arc::new(Mutex::new(BTreeMap::new())),\n            type_functions: type_functions::type_functions(),\n        },\n        cur_script_dir,\n    };\n    // evaluate top-level statements one at a time\n    let ast::Prog::Body{stmts} = &ast;\n    for stmt in stmts {\n        let one = ast::Prog::Body{stmts: vec![stmt.clone()]};\n        eval::eval_prog(&ectx, &mut scopes, global_bindings.clone(), &one)\n            .context(EvalFailed{path: cur_rel_script_path})?;\n    }")],
+       [("C03", "R03.1")], note="evaluation split per statement (each in its own root scope)")
+mutant("c03-lexer-prints-debug",
+       [(L, "    fn next_token(&mut self) -> Option<Result<Span, LexError>> {\n        self.skip_whitespace_and_comments();",
+            "    fn next_token(&mut self) -> Option<Result<Span, LexError>> {\n        self.skip_whitespace_and_comments();\n        if self.scanner.index == usize::MAX {\n            println!(\"lexer overflow\");\n        }")],
+       [("C03", "R03.2"), ("C17", "L6")])
+mutant("c15-ident-end-from-char-counter",
+       [(L, "        let start = self.scanner.index;\n        while let Some(c) = self.scanner.peek_char() {\n            if !c.is_ascii_alphanumeric() && c != '_' {\n                break;\n            }\n            self.scanner.next_char();\n        }\n        let end = self.scanner.index;\n\n        let t = self.scanner.range(start, end);\n\n        match t {",
+            "        let start = self.scanner.index;\n        let mut seen: Vec<char> = vec![];\n        while let Some(c) = self.scanner.peek_char() {\n            if !c.is_ascii_alphanumeric() && c != '_' {\n                break;\n            }\n            seen.push(c);\n            self.scanner.next_char();\n        }\n        let end = start + seen.len();\n\n        let t = self.scanner.range(start, end);\n\n        match t {")],
+       [("C15", "R15.1"), ("C03", "R03.3"), ("C02", "R02.3")], note="harmless for ASCII identifiers; pattern check")
